@@ -46,6 +46,13 @@ def jobs_for(tier, rng):
                      "period": rng.choice([2, 3] if g == [1, 1] else [1, 2, 3]), "clear": False,   # period 1 is rejected when undiscounted
  "calls": rng.choice([[1], [1, 1, 6], [9]]),
                      "mbs": rng.choice([1, 1024]), "cert": False, "tag": f"pvi-degenerate{k}"})
+    # undiscounted runs whose iterates need more than 24 significant bits inside the exactly judged range (a ring of
+    # another period keeps the measure from falling), half of them with jax_double_precision=False in this 64-bit
+    # process: the history must keep the iterates as they are
+    for k in range(4 if tier == "quick" else 16):
+        m = gen.bits_and_ring(rng, q=3, nstoch=rng.randint(2, 4))
+        jobs.append({"mdp": m, "kind": "PVI", "gamma": [1, 1], "eps": [1, 1], "period": 2, "clear": False,
+                     "calls": [24], "mbs": 1024, "cert": False, "jdp": False if k % 2 == 0 else None, "tag": f"pvi-manybits{k}"})
     # tens of thousands of states; the trace is reduced exactly (solver_worker.quotient)
     for N in ([20100] if tier == "quick" else [20100, 50021]):
         jobs.append({"mdp": gen.corridors(rng, N, [2, 3]), "kind": "PVI", "gamma": [1, 1], "eps": [1, 1], "period": 2,
